@@ -156,7 +156,12 @@ func (visitor VisitorWithContext[T]) VisitChildren(node Node, context T) {
 			visitor.Visit(t.Target, context)
 		}
 		for _, arg := range t.Arguments {
-			visitor.Visit(arg.Value, context)
+			visitor.Visit(arg, context)
+		}
+
+	case *SubscriptArgument:
+		if t.Value != nil {
+			visitor.Visit(t.Value, context)
 		}
 
 	case *FunctionCallExpression:
